@@ -5,7 +5,7 @@ import RepeVerif.Driver.Common
 /-! Driver for the `lifecycle` correspondence family (C15).
 
 ```
-group <g> <entry> <nconn> <nctx> <ndisc> <reg 0|1> <cap> <drain-mode c|a|-> <nctx registered>   (no observation)
+group <g> <entry> <nconn> <nctx> <ndisc> <reg 0|1> <cap> <drain-mode c|a|-> <nctx registered> <regpos>   (no observation)
 scen <idx> <phase> <cause> <notifies per user connect callback, comma separated | -> <at N|-> <nreq> <got>
   -> <idx> trace=<c<i>:<P> … d<i>:<x>:<P> …> wire=<first `got` frames> inl=<0|1|-> park=<0|1|-> live=<p|a|-> after=<p|a|->
   -> <idx> hooks=<n>                                                              (cause hsfail)
@@ -28,12 +28,24 @@ structure Group where
   reg : Nat := 0
   cap : Nat := 64
   mode : String := "-"
+  /-- user callbacks of each kind registered before `with_peer_registry` (hooks run in registration order) -/
+  regpos : Nat := 0
   -- registry scripts (`rx` lines): the registry as C18's model, connections ever opened, keys ever
   -- used, `alias` calls still in flight (they take effect after their peer's `remove`)
   rx : Peers.State := {}
   rxConns : List Nat := []
   rxKeys : List String := []
   rxLate : List (Nat × String) := []
+
+/-- index of the registry's insert among the connect hooks / of its remove among the disconnect hooks -/
+def Group.regC (g : Group) : Nat := min g.regpos g.nconn
+def Group.regD (g : Group) : Nat := min g.regpos g.ndisc
+
+/-- the user callback a hook index stands for (`none` = the registry's own hook) -/
+def userOf (reg pos h : Nat) : Option Nat :=
+  if reg == 0 then some h else if h == pos then none else some (if h < pos then h else h - 1)
+def Group.userC (g : Group) (h : Nat) : Option Nat := userOf g.reg g.regC h
+def Group.userD (g : Group) (h : Nat) : Option Nat := userOf g.reg g.regD h
 
 def Group.hasParent (g : Group) : Bool := g.entry == "drain" || g.entry == "conncancel" || g.entry == "adopt"
 
@@ -71,11 +83,12 @@ def runHooks (g : Group) (c : Cfg) (phase cause : String) (notif : List Nat) (at
   | fuel + 1, h, m =>
     if h ≥ c.nConn then (m, false) else
     let m := m.act c .hookStart
-    let u := h - g.reg
-    let m := if h ≥ g.reg then (List.range (notif.getD u 0)).foldl (fun m k => m.act c (.hookNotify k)) m else m
-    if h ≥ g.reg && cause == "cpanic" && at? == some u then (m.act c .hookPanic, true)
+    let user := (g.userC h).isSome
+    let u := (g.userC h).getD 0
+    let m := if user then (List.range (notif.getD u 0)).foldl (fun m k => m.act c (.hookNotify k)) m else m
+    if user && cause == "cpanic" && at? == some u then (m.act c .hookPanic, true)
     else
-      let m := if h ≥ g.reg && phase == "connecting" && at? == some u && isCancelCause g cause
+      let m := if user && phase == "connecting" && at? == some u && isCancelCause g cause
                then m.act c .parentCancel else m
       runHooks g c phase cause notif at? fuel (h + 1) (m.act c .hookReturn)
 
@@ -83,16 +96,19 @@ def simulate (g : Group) (phase cause : String) (notif : List Nat) (at? : Option
   let c := g.cfg
   let m : Sim := { st := init }
   if cause == "hsfail" then m.act c .handshakeFail else
+  -- phase `late`: the connection is served under a token that was cancelled before it was accepted
+  let m := if phase == "late" then m.act c .parentCancel else m
   let m := m.act c .handshakeOk
   let (m, panicked) := runHooks g c phase cause notif at? (c.nConn + 1) 0 m
   if panicked then m else
   let m := m.act c .enterReader
   -- the echo round trip that tells the client the reader is up
   -- (in phase `connecting` the request was pipelined while the connect callbacks were running)
-  let m := m.acts c [.recvInline, .inlineReturn (some 1)]
+  let m := if phase == "late" then m else m.acts c [.recvInline, .inlineReturn (some 1)]
   let m := match phase with
     | "inline" => m.act c .recvInline
     | "parked" => m.act c (.recvOff 2)
+    | "parkedfut" => m.act c (.recvOff 2)
     | "queued" => (List.range nreq).foldl (fun m j => m.acts c [.recvInline, .inlineReturn (some (10 + j))]) m
     | _ => m
   -- the strike
@@ -108,6 +124,7 @@ def simulate (g : Group) (phase cause : String) (notif : List Nat) (at? : Option
     | "drop" => m.act c (.readerExit .socketError)
     | "proto" => m.act c (.readerExit .protocolViolation)
     | "protog" => m.act c (.readerExit .protocolViolation)
+    | "toobig" => m.act c (.readerExit .protocolViolation)
     | "malformed" => m.act c (.readerExit .malformedFrame)
     | "malformeds" => m.act c (.readerExit .malformedFrame)
     | "malformedl" => m.act c (.readerExit .malformedFrame)
@@ -116,21 +133,28 @@ def simulate (g : Group) (phase cause : String) (notif : List Nat) (at? : Option
     | "abort" => m.act c .abort
     | _ => { m with ok := false }
   let m := if m.st.phase == .draining then m.acts c [.writerFinish, .writerJoined] else m
-  if phase == "parked" then m.act c (.offFinish 2 none) else m
+  if phase == "parked" || phase == "parkedfut" then m.act c (.offFinish 2 none) else m
 
 /-! registry as seen through the hooks (`with_peer_registry` first; user connect callback `u` aliases key `u`) -/
 
 def regAfter (g : Group) (tr : List Ev) : Peers.State :=
   tr.foldl (fun r e => match e with
-    | .connect 0 => Peers.insert r 1 1
-    | .connect (j + 1) => (Peers.alias r 1 (toString j)).1
-    | .disconnect 0 _ => (Peers.remove r 1).1
+    | .connect h => match g.userC h with
+      | none => Peers.insert r 1 1
+      | some u => (Peers.alias r 1 (toString u)).1
+    | .disconnect h _ => match g.userD h with
+      | none => (Peers.remove r 1).1
+      | some _ => r
     | _ => r) Peers.State.empty
 
 def presentWith (r : Peers.State) (key : Option String) : Bool :=
   (Peers.get r 1).isSome && match key with
     | some k => (Peers.getBy r k).map (·.id) == some 1
     | none => true
+
+/-- the handle and every alias registered by a connect callback that ran after the insert -/
+def fullIn (g : Group) (r : Peers.State) : Bool :=
+  presentWith r none && ((List.range (g.nconn + g.nctx)).filter (· ≥ g.regC)).all (fun u => presentWith r (some (toString u)))
 
 def goneFrom (g : Group) (r : Peers.State) : Bool :=
   (Peers.get r 1).isNone && (List.range (g.nconn + g.nctx)).all (fun u => (Peers.getBy r (toString u)).isNone)
@@ -143,14 +167,16 @@ def showTrace (g : Group) (phase : String) (tr : List Ev) : String :=
       let pre' := pre ++ [e]
       let r := regAfter g pre'
       let item : Option String := match e with
-        | .connect h => if h < g.reg then none else
-            let u := h - g.reg
+        | .connect h => match g.userC h with
+          | none => none
+          | some u =>
             let p := if g.reg == 0 then "-" else if presentWith r (some (toString u)) then "p" else "a"
             some s!"c{u}:{p}"
-        | .disconnect h b => if h < g.reg then none else
-            let u := h - g.reg
+        | .disconnect h b => match g.userD h with
+          | none => none
+          | some u =>
             let x := if phase == "parked" then (if b then "1" else "0") else "-"
-            let p := if g.reg == 0 then "-" else if goneFrom g r then "a" else "p"
+            let p := if g.reg == 0 then "-" else if goneFrom g r then "a" else if fullIn g r then "p" else "x"
             some s!"d{u}:{x}:{p}"
         | .cancel => none
       go pre' rest (match item with | some s => s :: acc | none => acc)
@@ -158,7 +184,7 @@ def showTrace (g : Group) (phase : String) (tr : List Ev) : String :=
   if items.isEmpty then "-" else ",".intercalate items
 
 def showFrame (g : Group) : Frame → String
-  | .connNotify h k => s!"n{h - g.reg}.{k}"
+  | .connNotify h k => s!"n{(g.userC h).getD 0}.{k}"
   | .otherNotify n => s!"o{n}"
   | .response id => s!"r{id}"
 
@@ -244,9 +270,19 @@ def step (g : Group) (ws : List String) : Group × String :=
   match ws with
   | "rx" :: idx :: rest => rxStep g idx rest
   | ["hs", idx, cfg, req, end_] => (g, hsStep idx cfg req end_)
-  | ["group", _, entry, nconn, nctx, ndisc, reg, cap, mode, _nctxRegistered] =>
-    ({ entry, nconn := natOf nconn, nctx := natOf nctx, ndisc := natOf ndisc, reg := natOf reg, cap := natOf cap, mode }, "")
-  | ["scen", idx, phase, cause, notif, at_, nreq, got] =>
+  | ["burst", idx, entry, n, end_] =>
+    if !(entry == "adopt" || entry == "listener") || !(end_ == "drop" || end_ == "close" || end_ == "mix") then (g, idx ++ " bad-op") else
+    -- n connections minted concurrently: ids from the shared counter, each connection its own lifecycle
+    let n := natOf n
+    let ids := mintIds 0 n
+    let distinct := Gen.Lifecycle.peerIdFetchAdd && ids.eraseDups.length == n
+    (g, s!"{idx} ids={if distinct then "distinct" else "collide"} live={ids.length}/{n} disc={ids.length}x1 after=empty")
+  | ["group", _, entry, nconn, nctx, ndisc, reg, cap, mode, _nctxRegistered, regpos, _harnessKnobs] =>
+    ({ entry, nconn := natOf nconn, nctx := natOf nctx, ndisc := natOf ndisc, reg := natOf reg, cap := natOf cap, mode,
+       regpos := natOf regpos }, "")
+  | ["scen", idx, phase, cause0, notif, at_, nreq, got] =>
+    -- the panic payload (`cpanics`/`cpanicn`/`hpanics`/`hpanicn`) is immaterial: an unwind is an unwind
+    let cause := if cause0.startsWith "cpanic" then "cpanic" else if cause0.startsWith "hpanic" then "hpanic" else cause0
     let at? := if at_ == "-" then none else some (natOf at_)
     let m := simulate g phase cause (parseNotif notif) at? (natOf nreq)
     if !m.ok then (g, idx ++ " schedule-not-enabled")
@@ -254,14 +290,16 @@ def step (g : Group) (ws : List String) : Group × String :=
     else
       let s := m.st
       let inl := match m.inl with | some true => "1" | some false => "0" | none => "-"
-      let park := if phase == "parked" then (if seenByHandlers s then "1" else "0") else "-"
+      let park := if phase == "parked" || phase == "parkedfut" then (if seenByHandlers s then "1" else "0") else "-"
       -- registry while live: after all connect hooks of the trace, before the guard's events
       let liveTr := s.trace.filter (fun e => match e with | .connect _ => true | _ => false)
-      let live := if g.reg == 0 || phase == "connecting" || cause == "cpanic" then "-"
-        else if presentWith (regAfter g liveTr) none &&
-                (List.range (g.nconn + g.nctx)).all (fun u => presentWith (regAfter g liveTr) (some (toString u))) then "p" else "a"
+      let live := if g.reg == 0 || phase == "connecting" || phase == "late" || cause == "cpanic" then "-"
+        else if fullIn g (regAfter g liveTr) then "p" else "a"
       let after := if g.reg == 0 then "-" else if goneFrom g (regAfter g s.trace) then "a" else "p"
-      (g, s!"{idx} trace={showTrace g phase s.trace} wire={showWire g s.log (natOf got)} inl={inl} park={park} live={live} after={after}")
+      -- a handler parked on `cancelled()` returns as soon as the token is cancelled: its response races with the
+      -- writer's end, so it may or may not be the last frame on the wire
+      let log := if phase == "parkedfut" then s.log ++ [.response 2] else s.log
+      (g, s!"{idx} trace={showTrace g phase s.trace} wire={showWire g log (natOf got)} inl={inl} park={park} live={live} after={after}")
   | _ => (g, "bad-op")
 
 end Repe.Driver.Lifecycle
